@@ -28,6 +28,10 @@ type memoSite struct {
 }
 
 func ambientType(t types.Type) bool {
+	// a value of a field-less struct type (a stateless loader used as a method namespace) carries no datum
+	if st, ok := engine.Deref(t).Underlying().(*types.Struct); ok && st.NumFields() == 0 {
+		return true
+	}
 	s := t.String()
 	for _, a := range []string{"context.Context", "console.Logger", "zap.", "dag.DirectedTargetGraph", "sync.", "caching.", "backends.", "worker.", "func(", "testing."} {
 		if strings.Contains(s, a) {
